@@ -191,7 +191,8 @@ def run_nonce(desc):
     raise SelfCheckError('cryptography Prehashed verify rejects the reference signature', desc)
   if v:
     checked.append('prehashed')
-  if desc.get('rv'):
+  # the (slow) textbook verification: where the descriptor asks for it, else on 1 case in 64
+  if desc.get('rv', Material(desc['m'], 'c09rv').below(64) == 0):
     if not eg.verify(ct, issuer.pub, r, s, h):
       raise SelfCheckError('reference verification rejects the reference signature', desc)
     checked.append('ref')
@@ -300,7 +301,6 @@ def strat_nonce(tier):
       'c': st.sampled_from(CURVES), 'd': _SCALAR_SEL, 'k': _SCALAR_SEL,
       'hl': hl, 'hk': st.sampled_from(_HKINDS), 'hz': st.integers(0, 71),
       'pr': pad, 'ps': pad, 'px': pad, 'py': pad,
-      'rv': st.integers(0, 63).map(lambda v: v == 0),
       'm': material})
 
 
@@ -589,7 +589,7 @@ def strat_conv(tier):
       'len': st.integers(0, 70), 'len2': st.integers(0, 70), 'len3': st.integers(0, 80),
       'kind': kinds, 'kind2': kinds, 'kind3': kinds,
       'pad': pad, 'pad2': pad, 'pad3': st.sampled_from([0, 0, 1, 2]), 'm': material})
-  return st.one_of(ints, ints, byts, hexs, points, sigvals)
+  return st.one_of(ints, ints.map(dict), byts, byts.map(dict), hexs, points, sigvals)
 
 
 def run_small(desc):
